@@ -17,6 +17,11 @@ CONSTANTS
   BugMovedIgnored = FALSE
   BugMaxOffByOne = TRUE
   BugSelClamp = FALSE
+  BugRefreshDropsInit = FALSE
+  BugAskRunNoInit = FALSE
+  BugPoolStale = FALSE
+  BugStreamKeyless = FALSE
+  BugPromoteReplica = FALSE
 INVARIANTS TypeOK BoundedRedirects
 CONSTRAINT GenBound
 VIEW MCView
